@@ -7,7 +7,7 @@ static uint64_t sip_rotl(uint64_t x, unsigned b) { return (x << b) | (x >> (64 -
 static uint64_t sip_le64(const uint8_t* p) { uint64_t v = 0; for (int i = 7; i >= 0; --i) v = (v << 8) | p[i]; return v; }
 #define SIPROUND do { v0 += v1; v1 = sip_rotl(v1, 13); v1 ^= v0; v0 = sip_rotl(v0, 32); v2 += v3; v3 = sip_rotl(v3, 16); v3 ^= v2; \
                       v0 += v3; v3 = sip_rotl(v3, 21); v3 ^= v0; v2 += v1; v1 = sip_rotl(v1, 17); v1 ^= v2; v2 = sip_rotl(v2, 32); } while (0)
-uint64_t verif_ref_siphash24(const uint8_t* k, const uint8_t* m, uint64_t len)
+uint64_t verif_ref_siphash24(uint8_t* k, uint8_t* m, uint64_t len)   /* non-const: matches the IR-derived prototype */
 {
     uint64_t k0 = sip_le64(k), k1 = sip_le64(k + 8);
     uint64_t v0 = k0 ^ 0x736f6d6570736575ULL, v1 = k1 ^ 0x646f72616e646f6dULL, v2 = k0 ^ 0x6c7967656e657261ULL, v3 = k1 ^ 0x7465646279746573ULL;
